@@ -86,7 +86,7 @@ fn hist_sys<A: crate::kinds::Kind, B: crate::kinds::Kind, C: crate::kinds::Kind>
 }
 
 fn store_sys<T: crate::kinds::Kind, U: crate::kinds::Kind>(perturb: bool) -> Store<T, U> {
-    Store { cfg: store::Cfg { prop: store::Prop::C20, layout: vec![0, 1, 70], max_depth: 3, max_lazy: 1, perturb, note_prefix: format!("{{\"engine\":\"mc-det\",\"property\":\"C20\",\"part\":\"store-{}\",\"ops\":", T::NAME) }, _p: PhantomData }
+    Store { cfg: store::Cfg { prop: store::Prop::C20, layout: vec![0, 1, 70], max_depth: 3, max_lazy: 1, late_reader: false, perturb, note_prefix: format!("{{\"engine\":\"mc-det\",\"property\":\"C20\",\"part\":\"store-{}\",\"ops\":", T::NAME) }, _p: PhantomData }
 }
 
 struct PartResult {
